@@ -13,12 +13,20 @@ from .builder_impl import parse_record, show
 
 PROP = "C01"
 KEYS = bc.MOTION_KEYS
-W = dict(move=40, moveabs=12, setaxis=7, home=5, probe=6, dist=8, enter=6, exit=7, feed=1, misc=2)
+W = dict(move=40, moveabs=12, setaxis=7, home=5, probe=6, dist=8, enter=6, exit=7, feed=1, misc=2, hook=2)
 PROBE = {"G38.2", "G38.3", "G38.4", "G38.5"}
 
 
 def machine_oracle(tol_per_word: Fraction):
     def oracle(lines, recs, im):
+        out = []
+        tol_word = tol_per_word if im.dp >= 5 else Fraction(1, 10**im.dp) / 2 + Fraction(1, 10**9)
+        return _oracle(lines, recs, im, tol_word)
+    return oracle
+
+
+def _oracle(lines, recs, im, tol_per_word):
+    if True:
         out = []
         pos = {"X": None, "Y": None, "Z": None}
         err = {"X": Fraction(0), "Y": Fraction(0), "Z": Fraction(0)}
@@ -63,7 +71,6 @@ def machine_oracle(tol_per_word: Fraction):
                     if v == "~" or abs(Fraction(v) - pos[a]) > err[a]:
                         out.append((i, f"after `{ln}` the machine is at {a}={show(pos[a])} but {key} reports {v}", "position"))
         return out
-    return oracle
 
 
 def histories(R, n, offgrid=False):
@@ -133,6 +140,8 @@ def run(R: core.Run):
     bc.correspond(R, histories(R, R.n(1200, 20000)), KEYS, True, "grid", exact_oracle)
     bc.correspond(R, histories(R, R.n(300, 4000), offgrid=True), KEYS, False, "offgrid", tol_oracle)
     bc.correspond(R, trace_histories(R, R.n(100, 3000)), KEYS, False, "tracer", tol_oracle)
+    lowdp = [[f"cfg dp={R.rng.choice([0, 1, 2, 3])}"] + h for h in histories(R, R.n(150, 3000))]
+    bc.correspond(R, lowdp, KEYS, False, "low-decimal-places", tol_oracle)
     if R.broken:
         R.search_batches += 1
         for h in histories(R, R.n(1500, 5000)):
